@@ -148,3 +148,31 @@ Proof.
     rewrite Forall_forall in Hw. specialize (Hw s Hs).
     destruct s as ((xs, cap), tail). apply mv_reopen_after_clean_sync_proof. exact Hw.
 Qed.
+
+(* a history of record publications in a directory store (PlainBlobStore::put): (record file, temporary file, data) *)
+Fixpoint puts_ops (h : list (N * N * list N)) : list fop :=
+  match h with [] => [] | (p, t, img) :: r => mv_sync_ops p t img ++ puts_ops r end.
+
+Lemma puts_history_crash_safe_proof : forall (h : list (N * N * list N)) d d',
+  (forall p t img, In (p, t, img) h -> t <> p) ->
+  crash d (puts_ops h) d' ->
+  forall q, (forall p t img, In (p, t, img) h -> q <> t) ->
+    d' q = d q \/ exists t img, In (q, t, img) h /\ d' q = Some img.
+Proof.
+  induction h as [|((p, t), img) r IH]; intros d d' Hne H q Hq; cbn [puts_ops] in H.
+  - left. rewrite (crash_nil _ _ H). reflexivity.
+  - assert (Htp : t <> p) by (apply (Hne p t img); left; reflexivity).
+    assert (Hqt : q <> t) by (apply (Hq p t img); left; reflexivity).
+    apply crash_app in H; [|apply sync_ops_sealed]. destruct H as [H|H].
+    + destruct (replace_crash_safe_proof d p t img d' Htp H q Hqt) as [E|(-> & E)]; [left; exact E|].
+      right. exists t, img. split; [left; reflexivity|exact E].
+    + assert (Hne' : forall p0 t0 img0, In (p0, t0, img0) r -> t0 <> p0) by (intros; eapply Hne; right; eassumption).
+      assert (Hq' : forall p0 t0 img0, In (p0, t0, img0) r -> q <> t0) by (intros; eapply Hq; right; eassumption).
+      destruct (IH _ _ Hne' H q Hq') as [E|(t1 & img1 & Hin & E)].
+      * pose proof (crash_prefix d (mv_sync_ops p t img) 4) as Hp.
+        change (firstn 4 (mv_sync_ops p t img)) with (mv_sync_ops p t img) in Hp.
+        destruct (replace_crash_safe_proof d p t img _ Htp Hp q Hqt) as [E2|(-> & E2)].
+        -- left. congruence.
+        -- right. exists t, img. split; [left; reflexivity|congruence].
+      * right. exists t1, img1. split; [right; exact Hin|exact E].
+Qed.
